@@ -178,7 +178,88 @@ func ruleNoEarlyReturn(name string, allowed func(cond ssa.Value) bool, what stri
 			}
 		}
 		l.Note("%s: %d early return(s) examined in %s", rule, n, name)
+		// a work loop nested in another one runs on every trip of the outer loop: a way round the outer
+		// loop that does not reach the inner loop's header leaves the sub-elements of that element
+		// untouched (a cue without cue-level style still has lines and runs with their own style)
+		for _, outer := range loops {
+			for _, inner := range loops {
+				if inner == outer || !outer.blocks[inner.header] || inner.blocks[outer.header] {
+					continue
+				}
+				// directly nested only: a loop two levels down is not entered when the one between makes no trip
+				direct := true
+				for _, mid := range loopsOf(fn) {
+					if mid.header != outer.header && mid.header != inner.header && outer.blocks[mid.header] && mid.blocks[inner.header] {
+						direct = false
+					}
+				}
+				if !direct {
+					continue
+				}
+				key := l.Key(rule, name, "inner-loop-skipped", loopDesc(inner))
+				avoid := map[*ssa.BasicBlock]bool{inner.header: true}
+				if path := cycleAvoiding(outer, avoid, func(b *ssa.BasicBlock, succ int) bool {
+					// not counted: the branch taken because the inner collection is empty
+					iff, ok := b.Instrs[len(b.Instrs)-1].(*ssa.If)
+					if !ok {
+						return false
+					}
+					bo, ok := iff.Cond.(*ssa.BinOp)
+					if !ok {
+						return false
+					}
+					for k, side := range []ssa.Value{bo.X, bo.Y} {
+						other := bo.Y
+						if k == 1 {
+							other = bo.X
+						}
+						if c, ok := side.(*ssa.Call); ok && isZeroConst(other) {
+							if bi, ok := c.Call.Value.(*ssa.Builtin); ok && bi.Name() == "len" {
+								return true
+							}
+						}
+					}
+					return false
+				}); path != nil {
+					l.Fail(rule, name, key, blockPos(p, path[len(path)-1]), fmt.Sprintf("%s: the loop at %s can go round without entering the nested loop at %s (through %s): for such an element the nested elements are left as they are although the operation applies to them independently", name, loopPos(p, outer), loopPos(p, inner), blockPos(p, path[len(path)-1])))
+				} else {
+					l.Prove(rule, name, key, loopPos(p, inner), "the nested loop is entered on every trip of the enclosing loop")
+				}
+			}
+		}
 	}
+}
+
+// cycleAvoiding: a path header → … → header inside loop li that enters no block of avoid; edges for
+// which skip(b, succIndex) holds are not followed. nil if there is none.
+func cycleAvoiding(li *loopInfo, avoid map[*ssa.BasicBlock]bool, skip func(b *ssa.BasicBlock, succ int) bool) []*ssa.BasicBlock {
+	seen := map[*ssa.BasicBlock]bool{}
+	var path []*ssa.BasicBlock
+	var dfs func(b *ssa.BasicBlock) bool
+	dfs = func(b *ssa.BasicBlock) bool {
+		seen[b] = true
+		path = append(path, b)
+		for i, s := range b.Succs {
+			if !li.blocks[s] || (skip != nil && skip(b, i)) {
+				continue
+			}
+			if s == li.header {
+				return true
+			}
+			if avoid[s] || seen[s] {
+				continue
+			}
+			if dfs(s) {
+				return true
+			}
+		}
+		path = path[:len(path)-1]
+		return false
+	}
+	if dfs(li.header) {
+		return path
+	}
+	return nil
 }
 
 func isLenOfItemsCond(v ssa.Value) bool {
@@ -402,6 +483,13 @@ func ruleRawTokenOnly(p *Prog, l *Ledger, tier string) {
 					switch calleeName(&c.Call) {
 					case "(*golang.org/x/net/html.Tokenizer).Raw":
 						raw++
+					case "(*golang.org/x/net/html.Tokenizer).TagName", "(*golang.org/x/net/html.Tokenizer).TagAttr", "(*golang.org/x/net/html.Tokenizer).Token":
+						// SRT takes its (case-insensitive) tags through Token(); WebVTT tag names carry the
+						// classes, which are case-sensitive and end up in the written file
+						if name == "parseTextWebVTT" {
+							bad++
+							l.Fail(rule, FnName(f), l.Key(rule, FnName(f), "normalised-tag", ""), p.Pos(c.Pos()), FnName(f)+" takes the tag through "+calleeShort(&c.Call)+", which lower-cases the tag name and with it the classes attached to it (<c.Loud> becomes c.loud): the classes written back differ from the ones read; only the raw token keeps them")
+						}
 					case "(*golang.org/x/net/html.Tokenizer).Text":
 						bad++
 						l.Fail(rule, FnName(f), l.Key(rule, FnName(f), "text-call", ""), p.Pos(c.Pos()), FnName(f)+" takes the token through (*html.Tokenizer).Text, which unescapes it before the parser has looked for markup-like structure: text that spells an inline timestamp with an escaped < (&lt;00:00:05.000>) is consumed as a timestamp")
